@@ -34,3 +34,36 @@ Theorem C02_stmt_text_fixpoint_partial : forall o t, opts_single o -> wf_file t 
   option_map (print_file o) (parse_file (print_file o t)) = Some (print_file o t).
 Proof. exact stmt_text_fixpoint. Qed.
 Print Assumptions C02_stmt_text_fixpoint_partial.
+
+(* ------------------------------------------------------------------ level S, DEFAULT (multi-line) mode
+   Syntax/MiniPrinterML.v transliterates the position logic of printer.go (wantsNewline, newlines,
+   indent, incLevel/decLevel with the levelIncs stack, nestedStmts' closing-position case, semiOrNewl,
+   semiRsrv, the Subshell line tests, both BinaryCmd branches) on trees that carry source lines
+   (Syntax/MiniPos.v); canon_file is the canonical position assignment (= the lines the real parser
+   gives to the printer's own fully multi-line output; the code leg checks exactly that).
+   Proved for ALL well-formed trees: on canonical positions the machine computes the compositional
+   layout R_file (every body statement on its own line at its depth, closing words on their own
+   lines, a one-statement condition inline), for every Indent n, and BinaryNextLine changes nothing.
+   This is the PRINTER half of idempotence in default mode.  NOT proved (named gap): that parse_file
+   reads R_file t back as t (the newline-token variants of the lexing and parsing layers), hence no
+   C01_stmt_roundtrip_default / C02_stmt_idempotent_default theorem yet; that step is tied by the code
+   leg only (model parse of the real output, real re-parse lines = canon_file, real Print(Parse(out)) = out). *)
+From Verif Require Import Syntax.MiniPos Syntax.MiniPrinterML Proofs.MiniRenderML.
+
+Theorem C02_stmt_default_layout_partial : forall ind bnl t, wf_file t ->
+  ml_print_file ind bnl t = R_file ind t.
+Proof. exact ml_print_file_render. Qed.
+Print Assumptions C02_stmt_default_layout_partial.
+
+Theorem C02_stmt_default_bnl_partial : forall ind t, wf_file t ->
+  ml_print_file ind true t = ml_print_file ind false t.
+Proof. exact ml_print_file_bnl. Qed.
+Print Assumptions C02_stmt_default_bnl_partial.
+
+(* non-vacuity: the example file of C01 in default mode (tabs, and Indent 4 + BinaryNextLine) *)
+Example C02_stmt_default_example_prints : ml_print_file 0 false ex_file = ex_default_text.
+Proof. exact ex_file_default_prints. Qed.
+Example C02_stmt_default_example_roundtrip :
+  parse_file (ml_print_file 0 false ex_file) = Some ex_file /\
+  parse_file (ml_print_file 4 true ex_file) = Some ex_file.
+Proof. exact ex_file_default_roundtrip. Qed.
